@@ -17,6 +17,16 @@ def run(ctx):
     for k, j in enumerate(jobs):          # half of them: the same objects calibrated twice (a session)
         if k % 2 == 0:
             j["repeat"] = 2
+    # a local optimiser whose result may replace any individual of the population: the champion of an island is
+    # still the best candidate ever evaluated there, so its history never gets worse
+    import copy
+    for n, (sel, rep) in enumerate([("worst", "best"), ("random", "best"), ("worst", "random"), ("best", "worst")][: ctx.pick(3, 4)]):
+        for seed_ in ctx.pick((3,), (2, 3, 5)):
+            j = copy.deepcopy(jobs[n % len(jobs)])
+            j.pop("repeat", None)
+            j.update({"algo": "nlopt", "sel": sel, "rep": rep, "pygmo_seed": seed_, "evolutions": 4, "islands": 2,
+                      "topology": "unconnected", "variant": 200 + n})
+            jobs.append(j)
     full = check.pmap(calib.calib_job, jobs, chunksize=1)
     ctx.cov["recorded_random"] += len(full)
     for t in full:
